@@ -2145,8 +2145,15 @@ impl<'arena> PrettyFormatter<'arena> {
                 | None => document,
             };
             let first: EntityId = arm.params.map_or_else(|| arm.out.into(), Into::into);
+            // With parameters, the gap in front of the result type starts at the last
+            // parameter's line, not at the `|` line: wrapped parameters must not read as a
+            // break in front of the type.
+            let before_out = match arm.params {
+                | Some(params) => BoundaryIntent::between(params, arm.out),
+                | None => BoundaryIntent::after_arm_prefix(arm.out),
+            };
             let document = document.append(self.fragment_boundary(
-                BoundaryIntent::after_arm_prefix(arm.out),
+                before_out,
                 BoundaryLayout::hanging(" :", self.indent()),
                 self.term_fragment(arm.out),
             ));
